@@ -36,6 +36,14 @@ def dec(v):
             return {k: dec(x) for k, x in v['d'].items()}
         if 's' in v:
             return v['s']
+        if 'call' in v:
+            # a value produced by a /repo function, e.g. a closure from alignment.make_substitution_fn
+            mod, _, fn = v['call']['func'].rpartition('.')
+            f = getattr(importlib.import_module('dtaidistance.' + mod), fn)
+            return f(**{k: dec(x) for k, x in v['call'].get('args', {}).items()})
+        if 'fnref' in v:
+            mod, _, fn = v['fnref'].rpartition('.')
+            return getattr(importlib.import_module('dtaidistance.' + mod), fn)
         if 'obj' in v:
             mod = importlib.import_module('dtaidistance.' + v['obj']['module'])
             cls = getattr(mod, v['obj']['cls'])
